@@ -260,6 +260,10 @@ func c19Terms(ids []string) []term {
 	add("j", ">", "")
 	add("j", "<", "y")
 	add("j", ":", "q\"u\\o")
+	// values that read like further terms: written quoted, `k:"a name:A"` is ONE term although its words, joined by
+	// blanks, spell the conjunction `k:a name:A` (which the enumeration also asks, on the same server process)
+	add("k", ":", "a name:A")
+	add("k", ">", "a k<b")
 	add("name", ":", "A")
 	add("name", ">", "A")
 	add("name", "<", "C")
